@@ -110,11 +110,14 @@ def gen_fault_stmt(rng, k, allow_ret=True):
 
 def gen_native_fault(rng, k, kind):
     """a raising statement for natively compiled code; a lambda can only hold an expression"""
+    # StopIteration is left out here: its conversion to RuntimeError (D189) happens at the first coroutine above the native
+    # frames, which splits the traceback differently from what the D189 switch models
     if kind != "lambda" and rng.random() < 0.5:
-        exc = L.RAISE_KINDS[k % len(L.RAISE_KINDS)]
+        pool = [x for x in L.RAISE_KINDS if x != "StopIteration"]
+        exc = pool[k % len(pool)]
         s = {"t": "raise", "exc": exc, "msg": "m", "cause": None}
     else:
-        kinds = sorted(L.FAULT_EXPR)
+        kinds = sorted(x for x in L.FAULT_EXPR if x != "stopiter")
         e = _wrap_expr(rng, {"t": "f", "k": kinds[k % len(kinds)]}, rng.choice([0, 0, 1]))
         s = {"t": "s", "form": "expr", "e": e} if kind == "lambda" else _simple_stmt(rng, e)
     if kind != "lambda" and rng.random() < 0.2:
